@@ -267,6 +267,12 @@ pub(crate) async fn shared_rng(
     let id_bytes = (i as u16).to_be_bytes();
     buf_id[32..].copy_from_slice(&id_bytes);
     let commitment = commit(&buf_id);
+    #[cfg(feature = "__verif")]
+    let buf = {
+        let mut b = buf;
+        crate::verif::hook("rng_seed_multi", crate::verif::Hook::Bytes(&mut b));
+        b
+    };
 
     // Step 2) a) Send the commitments to all parties for multi-party cointossing.
     // Broadcast multi-party commitments.
@@ -333,6 +339,14 @@ pub(crate) async fn shared_rng_pairwise(
         commitment_vec[k][0] = commit(&bufvec_id[k]);
     }
 
+    #[cfg(feature = "__verif")]
+    let bufvec = {
+        let mut b = bufvec;
+        for (k, v) in b.iter_mut().enumerate().filter(|(k, _)| *k != i) {
+            crate::verif::hook(&format!("rng_seed_pair:{k}"), crate::verif::Hook::Bytes(v));
+        }
+        b
+    };
     // Step 2) Send and receive commitments concurrently for pairwise cointossing.
 
     let commitments = scatter(channel, i, "RNG comm", &commitment_vec).await?;
@@ -448,6 +462,11 @@ async fn fabitn(
 
     // Seed a faster AesRng from the shared chacha rng
     let mut aes_rand = AesRng::from_seed(multi_shared_rand.random());
+    #[cfg(feature = "__verif")]
+    {
+        let mut c = aes_rand.clone();
+        crate::verif::probe_u128s("abit_check_first_word", &[c.random::<u128>()]);
+    }
     // Step 3) Verification of MACs and keys.
     // Step 3 a) Sample 3 * RHO random l'-bit strings r.
     // We sample whole Blocks as this requires less memory and is faster than sampling
@@ -618,6 +637,8 @@ pub(crate) async fn fashare(
             dm.extend(&mac.0.to_be_bytes());
         }
         d1[r] = d0[r] ^ delta.0;
+        #[cfg(feature = "__verif")]
+        crate::verif::hook("fashare_dm", crate::verif::Hook::Bytes(&mut dm));
         let c0 = commit(&d0[r].to_be_bytes());
         let c1 = commit(&d1[r].to_be_bytes());
         let cm = commit(&dm);
@@ -951,6 +972,8 @@ async fn faand(
     // Use SliceRandom::shuffle for unbiased random permutation
     let mut indices: Vec<usize> = (0..lprime).collect();
     indices.shuffle(shared_rand);
+    #[cfg(feature = "__verif")]
+    crate::verif::probe_usizes("bucket_perm", &indices);
 
     // Distribute shuffled indices into buckets using chunks
     // Since indices.len() == lprime == l * b, chunks_exact(b) gives us exactly l chunks of size b
@@ -1023,6 +1046,15 @@ pub(crate) async fn beaver_aand(
 
         de_shares.push((a ^ alpha, b ^ beta));
         d_e_dmac_emac.push((a.0 ^ alpha.0, b.0 ^ beta.0, Mac(0), Mac(0)));
+    }
+    #[cfg(feature = "__verif")]
+    {
+        let mut de: Vec<bool> = d_e_dmac_emac.iter().flat_map(|t| [t.0, t.1]).collect();
+        crate::verif::hook("beaver_de", crate::verif::Hook::Bools(&mut de));
+        for (j, t) in d_e_dmac_emac.iter_mut().enumerate() {
+            t.0 = de[2 * j];
+            t.1 = de[2 * j + 1];
+        }
     }
     let scatter_data: Vec<Vec<(bool, bool, Mac, Mac)>> = (0..n)
         .map(|k| {
@@ -1102,6 +1134,8 @@ async fn check_dvalue(
         }
     }
 
+    #[cfg(feature = "__verif")]
+    crate::verif::hook("dvalue_bits", crate::verif::Hook::BoolVecs(&mut d_values));
     let scatter_data: Vec<Vec<(Vec<bool>, Vec<Mac>)>> = (0..n)
         .map(|k| {
             if k != i {
